@@ -23,7 +23,7 @@ ASSUMPTIONS = ['expiry is the only disqualifying key condition reachable through
 KEYS = [('rsa1024-0', 'RSA', 'weak'), ('rsa2048-2', 'RSA', 'strong'), ('dsa1024-0', 'DSA', 'weak'), ('dsa2048-1', 'DSA', 'strong'),
         ('ecdsa-p256-0', 'EC', 'weak'), ('ed25519-0', 'EC', 'strong')]
 HASHES = [8, 2, 1]
-SUBJECTS = ['doc', 'self-uid', 'third-uid', 'whole-key', 'message']
+SUBJECTS = ['doc', 'self-uid', 'third-uid', 'whole-key', 'message', 'doc-by-subkey', 'doc-noise', 'doc-zero-expiry']
 
 
 def w_algebra(arg):
@@ -68,11 +68,27 @@ def w_algebra(arg):
     return rec
 
 
-def build_cert(kid, expired, revoked, halg, secret=False):
-    """certificate by the reference signer; expired: key expiration one day after a creation time in 2017"""
+def build_cert(kid, expired, revoked, halg, secret=False, noise=False):
+    """certificate by the reference signer; expired: key expiration one day after a creation time in 2017;
+    noise: later signatures by the key itself on its user ids that are NOT self-certifications (an attestation 0x16 each), which carry no expiry"""
     extra = keypool.sp(9, wire.u32(86400)) if expired else b''
-    blob = keypool.ref_cert(kid, uids=('Verdict Key <verdict@example.org>', 'Second <second@example.org>'), subkeys=(('cv25519-0', 0x0C),),
+    if noise == 'zero':
+        # RFC 4880 5.2.3.6: a key expiration time of zero (or none) means the key never expires
+        extra = keypool.sp(9, wire.u32(0))
+        noise = False
+    blob = keypool.ref_cert(kid, uids=('Verdict Key <verdict@example.org>', 'Second <second@example.org>'), subkeys=(('cv25519-0', 0x0C), ('ed25519-1', 0x02)),
                             secret=secret, halg=halg, uid_extra=extra)
+    if noise:
+        psec = keypool.ref_secret(kid)
+        pk = wire.split_packets(blob)
+        out = b''
+        for i, p in enumerate(pk):
+            out += p.raw
+            if p.tag == 2 and i > 0 and pk[i - 1].tag == 13:
+                att = rsig.sign(psec, 0x16, halg, ('cert', psec.pub, 'uid', pk[i - 1].body),
+                                keypool.std_hashed(psec.pub.created + 5000, psec.pub.fingerprint, keypool.sp(37, b'')), keypool.sp(16, psec.pub.keyid))
+                out += wire.build_packet(2, att)
+        blob = out
     if revoked:
         psec = keypool.ref_secret(kid)
         body = rsig.sign(psec, 0x20, halg, ('key', psec.pub), keypool.std_hashed(psec.pub.created + 200, psec.pub.fingerprint, keypool.sp(29, b'\x00')),
@@ -99,11 +115,20 @@ def scenario(rec, kid, fam, strength, expired, revoked, halg, subject, wrong):
     case = {'kind': 'scn', 'kid': kid, 'expired': expired, 'revoked': revoked, 'halg': halg, 'subject': subject, 'wrong': wrong}
     psec = keypool.ref_secret(kid)
     ppub = psec.pub
-    cert = build_cert(kid, expired, revoked, halg)
+    cert = build_cert(kid, expired, revoked, halg, noise=(subject == 'doc-noise') or ('zero' if subject == 'doc-zero-expiry' else False))
+    if subject == 'doc-zero-expiry':
+        expired = False
     n_sigs = 1
     try:
         ver = keypool.pgpy_key(cert)
-        if subject == 'doc':
+        if subject == 'doc-by-subkey':
+            # the document is signed by the signing subkey of the certificate; the verdict is asked of the (possibly expired) primary
+            ssec = keypool.ref_secret('ed25519-1')
+            body = rsig.sign(ssec, 0x00, halg, ('doc', b'verdict coherence'), keypool.std_hashed(1600000000, ssec.pub.fingerprint), keypool.sp(16, ssec.pub.keyid))
+            if wrong == 0:
+                body = corrupt(body)
+            res = ver.verify(b'verdict coherence', pgpy.PGPSignature.from_blob(wire.build_packet(2, body)))
+        elif subject in ('doc', 'doc-noise', 'doc-zero-expiry'):
             body = rsig.sign(psec, 0x00, halg, ('doc', b'verdict coherence'), keypool.std_hashed(1600000000, ppub.fingerprint), keypool.sp(16, ppub.keyid))
             if wrong == 0:
                 body = corrupt(body)
@@ -128,7 +153,8 @@ def scenario(rec, kid, fam, strength, expired, revoked, halg, subject, wrong):
             # verify(own key): user-id self-signatures, the subkey binding and (if revoked) the revocation
             pk = wire.split_packets(cert)
             sig_idx = [i for i, p in enumerate(pk) if p.tag == 2]
-            n_sigs = len(sig_idx)
+            # examined: every signature packet plus the cross-signature embedded in the binding of the signing subkey
+            n_sigs = len(sig_idx) + sum(1 for i in sig_idx for x in rsig.parse_sig_body(pk[i].body).unhashed if x.type == 32)
             if wrong is not None:
                 if wrong >= n_sigs:
                     return
